@@ -366,6 +366,15 @@ func (r *reinitRun) scenarioE(outDir string, n, t int, interleave, junk, adapt, 
 		r.note(tag + ": " + e)
 	}
 	r.st.Reinits++
+	// hand-made variants of the first participant's reinit operation, for the Lean model of handleReinitDKG (airdkg stream)
+	if r.air != nil {
+		for k := range b.nodes[0].coldLog {
+			if string(b.nodes[0].coldLog[k].Type) == "reinit_dkg" && b.nodes[0].coldLog[k].DKGIdentifier == round {
+				r.air.craftedReinits(b, b.nodes[0], b.nodes[0].coldLog[k])
+				break
+			}
+		}
+	}
 	// every node signing-ready with the same public data as the original
 	for i, nd := range b.nodes {
 		got := roundPublic(nd, round)
